@@ -1016,6 +1016,19 @@ def r_legal(ctx):
             elif form is None:
                 run.undecided('R-LEGAL', f, 'legality-test-covers-every-one#%d' % (i + 1), f.nodes[tid].lineno,
                               'legality test form not recognised: %s' % show(t)[:100])
+            # the test is applied to EVERY row: no condition on the row itself decides whether the test is reached
+            tn = f.nodes[tid]
+            for test3, pol3, tid3 in tn.conds:
+                if not tn.loops or tn.loops[-1] not in f.nodes[tid3].loops and tid3 != tn.loops[-1]:
+                    continue
+                t3 = f.term(test3, f.nodes[tid3])
+                row_dep = [x for x in walk_term(t3) if x[0] in ('iter', 'item') and
+                           any(y == ('v', 'matrix', 'P') for y in walk_term(x))]
+                if row_dep:
+                    run.refute('R-LEGAL', f, 'legality-test-on-every-row#%d' % (i + 1), f.nodes[tid3].lineno,
+                               'the legality test is only reached for rows where %s is %s: in the other rows an arc that is not a '
+                               'de Bruijn shift is silently dropped instead of raising ValueError' % (show(t3)[:70], pol3),
+                               inputs='a row whose only ones are illegal arcs')
             # the opposite arm raises ValueError
             for r in f.stmts(ast.Raise):
                 for test2, pol2, tid2 in r.conds:
